@@ -151,6 +151,9 @@ class FieldBase(metaclass=ABCMeta):
                 raise ValueError(msg)
             # actually set the data
             self.__data_full = value
+            # cached helpers (e.g., interpolators) are bound to the memory of the old
+            # array and need to be recreated
+            self.__dict__.pop("_cache_methods", None)
 
         else:
             msg = f"Cannot set field values to {value}"
